@@ -209,10 +209,15 @@ def order_constraint(c, v, cell_local):
         op, a, d = c[1], c[2], c[3]
     else:
         return None
-    red = lambda x: isinstance(x, tuple) and x and x[0] == 'downcast' and x[1] == ('uninit', cell_local) and x[3] == 'Reduce'
+    def red(x):
+        # the operand IS the production of a Reduce in the cell (not something computed from it, such as its precedence)
+        while isinstance(x, tuple) and x and x[0] in ('ref', 'deref'):
+            x = x[1]
+        return isinstance(x, tuple) and len(x) > 2 and x[0] == 'field' and isinstance(x[1], tuple) and x[1] and x[1][0] == 'downcast' \
+            and x[1][1] == ('uninit', cell_local) and x[1][3] == 'Reduce'
     a_dec = term_has(a, lambda x: x == ('uninit', cell_local))
     d_dec = term_has(d, lambda x: x == ('uninit', cell_local))
-    if (a_dec or d_dec) and not (term_has(a, red) or term_has(d, red)):
+    if (a_dec or d_dec) and not (red(a) or red(d)):
         return None         # a test of the cell that is not about the production of a Reduce in it
     if a_dec == d_dec:
         return 'same-side'
@@ -268,6 +273,21 @@ def r32(facts, res):
         exits = {x for blk in loops[h0] for x in b.succs(blk) if x not in loops[h0]}
         outs = {x for x in exits if len(inl) < 3 or inl[2] in b.reachable([x])}
         ps2 = w2.run(h0, stop=lambda x: x in outs)
+        # a round that leaves through `?` on the result of an inlined helper stops at the block after the (former) call, which
+        # is also where successful rounds go on: follow such a path further - it is an exit only if it runs into a return
+        if not w2.overflow:
+            more = []
+            for p in ps2:
+                if p.end[0] == 'stop' and p.end[1] in outs:
+                    w3 = widening_walker(b, facts, max_paths=64)
+                    w3.widen_headers, w3.widen_assigned = set(), {}
+                    tails = w3.run(p.end[1], stop=lambda x: x in loops, env=p.env)
+                    if len(tails) == 1 and tails[0].end[0] == 'return' and not w3.overflow:
+                        p.conds = p.conds + tails[0].conds
+                        p.events = p.events + tails[0].events
+                        p.end = tails[0].end
+                more.append(p)
+            ps2 = more
         if not w2.overflow:
             out = []
             for p in ps2:
